@@ -183,7 +183,19 @@ def run_case(case):
         pool, den = case["wpool"], case["wden"]
         wnum = [pool[e % len(pool)] for e in range(len(edges))]
         if mode == "dict":
-            weights = dict((e, wnum[e] / den) for e in range(len(edges)))
+            # the VALUE of each weight is wnum/den; its machine representation is whatever a caller may legally use
+            import numpy as np
+            wrepr = case.get("wrepr", "pyfloat")
+            conv = {"pyfloat": lambda a, b: a / b, "pyint": lambda a, b: int(a // b), "bool": lambda a, b: bool(a // b),
+                    "f32": lambda a, b: np.float32(a / b), "f64": lambda a, b: np.float64(a / b),
+                    "i8": lambda a, b: np.int8(a // b), "i16": lambda a, b: np.int16(a // b),
+                    "i32": lambda a, b: np.int32(a // b), "i64": lambda a, b: np.int64(a // b),
+                    "u8": lambda a, b: np.uint8(a // b), "u16": lambda a, b: np.uint16(a // b),
+                    "u32": lambda a, b: np.uint32(a // b), "u64": lambda a, b: np.uint64(a // b)}[wrepr]
+            weights = dict((e, conv(wnum[e], den)) for e in range(len(edges)))
+            for e in range(len(edges)):
+                if float(weights[e]) * den != wnum[e]:
+                    raise ValueError("weight %r/%r is not representable as %s" % (wnum[e], den, wrepr))
         else:
             weights = mesh.edges.create_attribute("c09_w", float)
             k = case.get("unset", 0)
